@@ -38,6 +38,9 @@ NAMES = ["ok", "_p", "__priv__", "_", "__class__", "__init__", "__globals__", "_
          "f_locals", "f_globals", "f_back", "f_code", "co_consts", "co_names", "co_code", "tb_frame", "tb_next",
          "tb_lineno", "func_globals", "func_code", "im_func", "im_class", "format", "upper", "keys", "kid", "k"]
 ROOTS = ["po", "fn", "meth", "cls", "gen", "coro", "agen", "code", "frame", "tb", "s", "d", "mk"]
+# literal roots: the compiler may fold accesses on them at compile time
+LITERALS = {"'abc'": "abc", "[1]": [1], "{'k': 1}": {"k": 1}, "(1,)": (1,), "42": 42, "none": None, "true": True,
+            "('a'|safe)": "a"}
 
 # value-returning routes: %(X)s object expression, %(N)s attribute name; the result goes to a wrapper
 VALUE_ROUTES = {
@@ -57,7 +60,7 @@ FORMAT_ROUTES = {
     "format_item": "'[{0[%(N)s]}]'.format(%(X)s)",
     "format_auto": "'[{.%(N)s}]'.format(%(X)s)",
     "format_map": "'[{x.%(N)s}]'.format_map({'x': %(X)s})",
-    "format_spec": "'[{0.%(N)s!s:>1}]'.format(%(X)s)",
+    "format_spec": "'[{0.%(N)s!s:>0}]'.format(%(X)s)",
     "markup_format": "('[{0.%(N)s}]'|safe).format(%(X)s)",
     "markup_format_map": "('[{x.%(N)s}]'|safe).format_map({'x': %(X)s})",
     "format_via_list": "['[{0.%(N)s}]'.format][0](%(X)s)",
@@ -85,7 +88,8 @@ STMT_ROUTES = {
 # routes where a filter consumes the attribute values itself (tracers log the use)
 USE_ROUTES = {
     "sort": "{{ [%(X)s, %(X)s]|sort(attribute='%(N)s')|list|length }}",
-    "sort_multi": "{{ [%(X)s, %(X)s]|sort(attribute='ok,%(N)s')|list|length }}",
+    "sort_multi": "{{ [%(X)s, %(X)s]|sort(attribute='%(N)s,ok')|list|length }}",
+    "sort_multi_dotted": "{{ [%(X)s, %(X)s]|sort(attribute='kid.%(N)s,ok')|list|length }}",
     "unique": "{{ [%(X)s, %(X)s]|unique(attribute='%(N)s')|list|length }}",
     "sum": "{{ [%(X)s]|sum(attribute='%(N)s') }}",
     "min": "{{ [%(X)s, %(X)s]|min(attribute='%(N)s') is defined }}",
@@ -192,7 +196,15 @@ def gen_cases(tier, seed):
     for X in ROOTS:
         for N in NAMES:
             cases.append((X, (N,), "dot", "sink", False, False))
-            cases.append((X, (N,), "sub", "sink", False, False))
+            if not quick or rnd.random() < 0.3:
+                cases.append((X, (N,), "sub", "sink", False, False))
+    for X in LITERALS:
+        for N in ["__class__", "__init__", "_p", "format", "upper", "k", "__doc__", "__add__", "real", "__dict__"]:
+            for route in ("dot", "sub", "attr_filter", "format_pos"):
+                if not quick or route == "dot" or rnd.random() < 0.3:
+                    cases.append((X, (N,), route, "sink", False, False))
+        cases.append((X, ("__class__", "__mro__"), "dot", "sink", False, False))
+        cases.append((X, ("__class__", "mro"), "sub", "sink", False, False))
     # 2. every route x wrapper on a selection of (root, name)
     pairs = [(X, N) for X in ROOTS for N in NAMES]
     all_routes = list(VALUE_ROUTES) + list(FORMAT_ROUTES) + list(STMT_ROUTES) + list(USE_ROUTES)
@@ -218,7 +230,7 @@ def gen_cases(tier, seed):
               ("meth", ("__func__", "__globals__")), ("tb", ("tb_frame", "f_globals")), ("d", ("_p", "ok")),
               ("cls", ("meth", "__globals__")), ("cls", ("meth", "__code__", "co_consts")),
               ("po", ("kid", "kid", "_p")), ("po", ("fn", "__code__", "co_names")), ("d", ("k", "__class__"))]
-    nrand = 150 if quick else 6000
+    nrand = 120 if quick else 6000
     for _ in range(nrand):
         chains.append((rnd.choice(ROOTS), tuple(rnd.choice(NAMES) for _ in range(rnd.choice([2, 2, 3])))))
     for X, names in chains:
@@ -272,7 +284,7 @@ def run_case(case):
     env = su.make_env(rec, immutable=immutable, enable_async=is_async)
     rec.enabled = False
     ctx, coro = make_data(rec, names[0])
-    path = walk(ctx[X], names)
+    path = walk(LITERALS[X] if X in LITERALS else ctx[X], names)
     rec.enabled = True
     ctx["sink"] = su.Sink(rec, empty)
     with warnings.catch_warnings():
@@ -397,12 +409,12 @@ def design_model(ck):
                       ["TypeOK", "C17_NoTaintedUse", "C17_OperationalGateRefinesRule"], coverage=quick, timeout=3000)
     ck.add_tlc(r, "SandboxGate: abstract gate and transcription of is_safe_attribute")
     if quick:
-        ck.require_coverage(r, ["MFetch", "Gate", "Deliver", "DeliverUndefined", "MUse"])
+        su.require_cov(ck, r, ["MFetch", "Gate", "Deliver", "DeliverUndefined", "MUse"])
 
 
 def run(ck):
     su.load_own_findings(ck, PID)
-    design_model(ck)
+    bg = su.Background(design_model, ck)      # TLC on the design model runs while the engine is exercised
     cases = gen_cases(ck.tier, ck.seed)
     if len(cases) > 2500:
         with ProcessPoolExecutor(max_workers=12) as ex:
@@ -420,7 +432,7 @@ def run(ck):
     # structural part over every distinct program
     sources = sorted({r[1] for r in results}) + EXTRA_PROGRAMS
     if ck.tier == "quick":
-        sources = sources[::3] + EXTRA_PROGRAMS
+        sources = sources[::9] + EXTRA_PROGRAMS
     straces, smeta = structural(ck, sources)
     unknown = sorted({(e["s"], e["a"]["n"]) for t in straces for e in t["ev"] if e["e"] == "ins" and e["k"] == "unknown"})
     if unknown:
@@ -430,7 +442,7 @@ def run(ck):
     ck.extra["generated_programs_structurally_checked"] = len(straces)
     ck.extra["ins_events"] = sum(len(t["ev"]) - 1 for t in straces)
     allt = traces + straces
-    rejected = su.validate(ck, PID, allt, "traces")
+    rejected = su.validate(ck, PID, allt, "traces", parallel=2 if ck.tier == "quick" else 6)
     n = len(traces)
     for idx, stuck in rejected:
         if idx < n:
@@ -462,6 +474,7 @@ def run(ck):
     for i in (0, n // 2):
         ck.sample({"template": results[i][1], "path": traces[i]["path"],
                    "events": [(e["e"], e["a"]["n"], e["ok"], e["s"]) for e in traces[i]["ev"]]})
+    bg.join()
     ck.exhaustive = False
     ck.extra["exhaustive_note"] = ("every root kind x attribute name through dot and subscript; all routes x wrappers on "
                                    "the escape-primitive pairs plus a seeded sample; seeded sample of paths of length 2-3")
